@@ -68,8 +68,26 @@ THEOREMS = [
          clause="nucleation jump: T_nuc < T_after < T_eq_l and 0 < m_i < m_w at supercooled nodes (DerivedOK)"),
     dict(name="Snow.C07.ice_range_nucleation_row", strength="full",
          clause="2D post-nucleation row: 0 <= w_i < w_water, ice iff the node was supercooled, on the liquidus of the new T"),
-    dict(name="Snow.C07.ice1D_eq_node", strength="full",
-         clause="the 1D ice formulas (mask as a number; nucleation row and solidification rows) are the node formula"),
+    dict(name="Snow.C07.solidStep1D_ice", strength="full",
+         clause="1D solidification rows: the ice field w_i_k produced by solidStep1D is iceNode1D of the temperature field "
+                "of the same step (node by node)"),
+    dict(name="Snow.C07.nucleate1D_ice", strength="full",
+         clause="1D nucleation row: the ice field of nucleate1D/(m_w+m_s) is iceNode1D of the NEW temperature field"),
+    dict(name="Snow.C07.iceNode1D_range", strength="full",
+         clause="1D node formula: 0 <= w_i < m_w/den, ice iff T < T_eq_l, liquidus relation (SolOK1 = relations of calculateDerived)"),
+    dict(name="Snow.C07.maxprinciple2D_cool_rows", strength="full",
+         clause="2D shelf/jacket: every row SAVED during the cooling loop lies in [lo,hi] (degC)"),
+    dict(name="Snow.C07.maxprinciple2D_published", strength="full",
+         clause="2D shelf/jacket, completed run: every REPORTED temperature row with index < iSaveEnd lies in [lo,hi] "
+                "containing T_0 and the shelf temperatures up to the nucleation step"),
+    dict(name="Snow.C07.maxprinciple2D_published_coldest", strength="full",
+         clause="... with a programme that has not risen and starts at T_0: coldest shelf temperature so far <= reported "
+                "T <= T_0 (cooling-stage rows)"),
+    dict(name="Snow.C07.maxprinciple1D_cool_run_coldest", strength="full",
+         clause="1D shelf, loop states: coldest shelf so far <= every node <= T_0 (not yet restated on published rows)"),
+    dict(name="Snow.C07.hyps_qDef", strength="witness",
+         clause="hden/hnum/htheta of bounds0D_run, hv/hfo/hbi of maxprinciple1D_cool_run, SolOK1 and the nucleation "
+                "hypotheses hold for the default SnowIn and its 30-point grid"),
     dict(name="Snow.C07.ice_range_0D", strength="conditional on T < T_eq_l (state condition, evaluated on runs)",
          clause="0D ice formula is the liquidus expression and lies in (0, w_water) below T_eq_l"),
     dict(name="Snow.C07.solOK_of_derived", strength="full",
@@ -94,8 +112,12 @@ ASSUMPTIONS = [
     "derived_*); instantiated on the default configuration (derivedOK_pDef)",
     "run-level theorems take 'T_0 and every shelf temperature applied so far lie in [lo,hi]' as hypothesis; for a "
     "programme that does not rise and starts at T_0 (C05 profile_antitone, profile_head) this is [coldest shelf so far, T_0]",
-    "stability range (Stab): CFL number <= 1 (implied by the code's dt), Biot numbers K_shelf*dz/k <= 1 and "
-    "K_wall*s/k <= 1, shelf program non-increasing, T_0 >= T_shelf(0)",
+    "stability range (Stab / StabCtx): CFL number <= 1 (implied by the code's dt), Biot numbers K_shelf*dz/k <= 1 and "
+    "K_wall*s/k <= 1, r_j >= dr/2.  The shelf programme is NOT part of Stab: the run-level theorems take the interval "
+    "[lo,hi] of T_0 and the shelf temperatures applied so far as hypothesis (the *_coldest corollaries assume a "
+    "programme that has not risen and is not warmer than T_0; the harness predicate gates on Stab's Biot part only)",
+    "satisfiability of 'the run completed' (S2D.run = ok, run1DOn publishes histories) is not witnessed in Lean; it rests on "
+    "the differential runs of this check, as for C08/C11/C13",
     "maximum principle of the SOLIDIFICATION stage (variable conductivity, apparent heat capacity) is not proved: "
     "the bounds after nucleation, in particular T <= max(T_0, T_eq_l), are evaluated on real runs only",
     "the lower bound is not claimed for VISF (the property excludes it)",
@@ -110,7 +132,8 @@ PARALLEL = True
 LEVEL_TEXT = ("PARTIAL proof. Lean 4 theorems (exact reals). RUN LEVEL, cooling stage (induction over the loops): 0D, 1D "
               "shelf, 2D shelf/jacket (repaired and in-place update) -- every node stays in the interval spanned by T_0 and "
               "the shelf temperatures applied so far, hence between the coldest shelf so far and T_0 for a non-rising "
-              "programme (hypotheses: CFL from the code's dt, Biot numbers <= 1, named structure StabCtx); every "
+              "programme -- stated on loop states (0D, 1D) and on the REPORTED cooling-stage rows of a completed run (2D) -- "
+              "(hypotheses: CFL from the code's dt, Biot numbers <= 1, named structure StabCtx); every "
               "cooling-stage row of a completed 0D/1D/2D run reports zero ice. NUCLEATION: T_nuc < T_after < T_eq_l, "
               "0 < m_i < m_w. ICE: 0 <= w_i < w_water, ice iff T < T_eq_l, liquidus relation, for the 2D, 1D and "
               "nucleation-row formulas (0D conditional on T < T_eq_l) under the named derived-constant relations "
